@@ -112,6 +112,7 @@ package hackpadfs
 
 //@ extern io/fs.ReadDir(fsys FS, name string) (entries []DirEntry, err error)
 //@   deterministic
+//@   ensures "entries" implies(err == nil, forall(i, 0, len(entries), entries[i] != nil))
 
 //@ extern io/fs.ReadFile(fsys FS, name string) (data []byte, err error)
 //@   deterministic
@@ -181,6 +182,7 @@ package hackpadfs
 //@ func ReadDir(fs FS, name string) (entries []DirEntry, err error)
 //@   props C06 C07 C08 C16 C05
 //@   deterministic
+//@   ensures "entries" implies(err == nil, forall(i, 0, len(entries), entries[i] != nil))
 //@   ensures "native" implies(implements(fs, ReadDirFS), entries == old(ret("hackpadfs.(ReadDirFS).ReadDir", 0, fs, name)) && err == old(ret("hackpadfs.(ReadDirFS).ReadDir", 1, fs, name)) &&
 //@                      world() == old(worldAfter("hackpadfs.(ReadDirFS).ReadDir", fs, name)))
 //@   ensures "mount" implies(!implements(fs, ReadDirFS) && implements(fs, MountFS),
@@ -305,4 +307,41 @@ package hackpadfs
 //@   ensures "mount" implies(!implements(fs, MkdirAllFS) && implements(fs, MountFS), translated(err, old(ret("hackpadfs.MkdirAll", 0, mountOf(fs, path), subOf(fs, path), perm)), path, old(subOf(fs, path))) &&
 //@                      world() == old(worldAfter("hackpadfs.MkdirAll", mountOf(fs, path), subOf(fs, path), perm)))
 //@   ensures "gate" implies(!implements(fs, MkdirAllFS) && !implements(fs, MountFS) && !VP(path), isPathError(err) && pathOf(err) == path && errIs(err, ErrInvalid) && world() == old(world()))
+//@   nopanic
+
+// RemoveAll: native and mount branches exact. The fallback recursion is only pinned down where its sequence of
+// primitive calls is fixed: a missing name, a non-directory, and a directory whose listing is empty; for those the
+// helper must return the error of the primitive that failed (C08: never report success for work not done).
+//@ spec raStatErr(w int, fs FS, p string) := retW("hackpadfs.Stat", 1, w, fs, p)
+//@ spec raStatInfo(w int, fs FS, p string) := retW("hackpadfs.Stat", 0, w, fs, p)
+//@ spec raW1(w int, fs FS, p string) := worldAfterW("hackpadfs.Stat", w, fs, p)
+//@ spec raIsDir(w int, fs FS, p string) := retW("hackpadfs.(FileInfo).IsDir", 0, raW1(w, fs, p), raStatInfo(w, fs, p))
+//@ spec raListErr(w int, fs FS, p string) := retW("hackpadfs.ReadDir", 1, raW1(w, fs, p), fs, p)
+//@ spec raList(w int, fs FS, p string) := retW("hackpadfs.ReadDir", 0, raW1(w, fs, p), fs, p)
+//@ spec raW2(w int, fs FS, p string) := worldAfterW("hackpadfs.ReadDir", raW1(w, fs, p), fs, p)
+
+//@ func removeAll(fs FS, path string) (err error)
+//@   props C08 C05
+//@   requires fs != nil
+//@   modifies world()
+//@   loop 1 invariant "any" fs != nil && rangeindex >= -1 && rangeindex < max(len(dir), 1) && (len(dir) > 0 || rangeindex == -1)
+//@   loop 1 modifies world()
+//@   ensures "missing" implies(old(raStatErr(world(), fs, path)) != nil && errIs(old(raStatErr(world(), fs, path)), ErrNotExist), err == nil)
+//@   ensures "stat-error" implies(old(raStatErr(world(), fs, path)) != nil && !errIs(old(raStatErr(world(), fs, path)), ErrNotExist), err == old(raStatErr(world(), fs, path)))
+//@   ensures "file" [C08] implies(old(raStatErr(world(), fs, path)) == nil && !old(raIsDir(world(), fs, path)),
+//@                     ite(errIs(old(retW("hackpadfs.Remove", 0, raW1(world(), fs, path), fs, path)), ErrNotExist), err == nil, err == old(retW("hackpadfs.Remove", 0, raW1(world(), fs, path), fs, path))))
+//@   ensures "list-error" implies(old(raStatErr(world(), fs, path)) == nil && old(raIsDir(world(), fs, path)) && old(raListErr(world(), fs, path)) != nil, isPathError(err) && pathOf(err) == path)
+//@   ensures "empty-dir" [C08] implies(old(raStatErr(world(), fs, path)) == nil && old(raIsDir(world(), fs, path)) && old(raListErr(world(), fs, path)) == nil && len(old(raList(world(), fs, path))) == 0 &&
+//@                     old(retW("hackpadfs.Remove", 0, raW2(world(), fs, path), fs, path)) != nil && !errIs(old(retW("hackpadfs.Remove", 0, raW2(world(), fs, path), fs, path)), ErrNotExist), err != nil)
+//@   nopanic
+
+//@ func RemoveAll(fs FS, path string) (err error)
+//@   props C06 C07 C08 C04 C05
+//@   deterministic
+//@   requires fs != nil
+//@   ensures "native" implies(implements(fs, RemoveAllFS), err == old(ret("hackpadfs.(RemoveAllFS).RemoveAll", 0, fs, path)) &&
+//@                      world() == old(worldAfter("hackpadfs.(RemoveAllFS).RemoveAll", fs, path)))
+//@   ensures "mount" implies(!implements(fs, RemoveAllFS) && implements(fs, MountFS), translated(err, old(ret("hackpadfs.RemoveAll", 0, mountOf(fs, path), subOf(fs, path))), path, old(subOf(fs, path))) &&
+//@                      world() == old(worldAfter("hackpadfs.RemoveAll", mountOf(fs, path), subOf(fs, path))))
+//@   ensures "gate" implies(!implements(fs, RemoveAllFS) && !implements(fs, MountFS) && !VP(path), isPathError(err) && pathOf(err) == path && errIs(err, ErrInvalid) && world() == old(world()))
 //@   nopanic
